@@ -96,6 +96,13 @@ fn usage() -> ! {
 /// Exit code for "the machinery itself failed" (never a verdict).
 pub const EXIT_MACHINERY: i32 = 3;
 
+/// A liveness counter for watchdogs: long-running loops bump it.
+pub static PROGRESS: std::sync::atomic::AtomicU64 = std::sync::atomic::AtomicU64::new(0);
+
+pub fn tick() {
+    PROGRESS.fetch_add(1, std::sync::atomic::Ordering::Relaxed);
+}
+
 pub fn machinery_error(msg: &str) -> ! {
     eprintln!("MACHINERY-ERROR: {}", msg);
     std::process::exit(EXIT_MACHINERY)
